@@ -32,7 +32,7 @@ REAL_VS_STUB = "real: EVSE, DeadbandEVSE, FiniteRatesEVSE, EV, Battery models, C
 ASSUMPTIONS = ["accepted <=> dist(pilot, allowable set of the scenario) <= 1e-3, with a guard band of 1e-9 around exactly 1e-3 (inconclusive)",
                "a rejected pilot aborts the period half-way by design: only the rejected station is judged"]
 P_WORLD = world.profile(party={"scripted": 1}, faults={"invalid_pilot": 1.0, "crash": 0.5, "mutate": 0.6}, resume_modes=["rerun", "json_str", "json_buf"],
-                        evse_kinds={"cont": 3, "dead": 3, "finite": 3, "cont_inf": 1}, stations=(2, 6))
+                        evse_kinds={"cont": 3, "dead": 3, "finite": 3, "cont_inf": 1, "cont_neg": 1}, stations=(2, 6))
 DELTAS = [0.0, 0.5e-3, -0.5e-3, 0.9e-3, -0.9e-3, 1.1e-3, -1.1e-3, 2e-3, -2e-3, 1.0, -1.0]
 
 
@@ -89,7 +89,7 @@ def gen(rs, tier):
             sc["twins"] = [st[a]["id"], st[b]["id"]]
         return sc
     r = sub(rs, "evse")
-    kind = r.choice(["cont", "cont", "dead", "dead", "finite", "finite", "finite", "cont_inf", "cont_min"])
+    kind = r.choice(["cont", "cont", "dead", "dead", "finite", "finite", "finite", "cont_inf", "cont_min", "cont_neg"])
     if kind == "cont_min":
         mn = r.choice([6, 1, round(r.uniform(0.5, 10), 2)])
         e = {"type": "EVSE", "max": r.choice([None, 32, round(mn + r.uniform(0.01, 40), 2)]), "min": mn}
@@ -120,7 +120,7 @@ def gen(rs, tier):
             d = r.choice(DELTAS)
             ops.append({"op": "set", "v": r.choice(bs) + d, "kind": "edge"})
         elif k < 0.76:
-            ops.append({"op": "set", "v": float("nan"), "kind": "nan"})
+            ops.append({"op": "set", "v": r.choice([float("nan"), float("nan"), float("inf"), float("-inf")]), "kind": "nan"})
         elif k < 0.80:
             ops.append({"op": "set", "v": -r.choice([0.5, 1, 6, 32]), "kind": "neg"})
         elif k < 0.86:
